@@ -149,12 +149,32 @@ def history_scripts(tier, seed):
         for m in moves:
             lines += ["hist " + m, "obs", "search %d -1 0" % (1 + rng.below(4)), "obs", "search %d -1 0" % (1 + rng.below(3))]
         blocks.append(lines)
+    # twins: the same placement and side with a different en-passant / castling state, searched in one session (a table
+    # keyed by anything less than the whole position hands the move cached for one twin to the other)
+    for j, (a, b) in enumerate(TWINS):
+        for (x, y) in ((a, b), (b, a)):
+            for (d1, d2) in ((4, 4), (4, 2), (3, 3)):
+                blocks.append(["# t%d_%d%d%s" % (j, d1, d2, "ab" if x is a else "ba"), "cleartable", "new " + x, "obs", "search %d -1 0" % d1,
+                               "new " + y, "obs", "search %d -1 0" % d2, "obs", "search %d -1 0" % (d2 + 1)])
     # the position a search has just mated or stalemated in, asked about shallowly with the table kept
     for j, f in enumerate(MATE_ROOTS if tier == "thorough" else MATE_ROOTS[:7]):
         for d in (3, 4):
             blocks.append(["# m%d_%d" % (j, d), "cleartable", "new " + f, "obs", "search %d -1 0" % d, "playbest",
                            "obs", "search 1 -1 0", "obs", "search 2 -1 0", "playbest", "obs", "search 1 -1 0"])
     return blocks
+
+
+TWINS = [
+    ("8/8/8/3pP3/8/8/k7/7K w - d6 0 1", "8/8/8/3pP3/8/8/k7/7K w - - 0 1"),
+    ("7k/K7/8/8/3Pp3/8/8/8 b - d3 0 1", "7k/K7/8/8/3Pp3/8/8/8 b - - 0 1"),
+    ("4k3/8/8/2pP4/8/8/8/4K3 w - c6 0 1", "4k3/8/8/2pP4/8/8/8/4K3 w - - 0 1"),
+    ("4k3/8/8/8/6Pp/8/8/4K3 b - g3 0 1", "4k3/8/8/8/6Pp/8/8/4K3 b - - 0 1"),
+    ("rnbqkb1r/ppp1pppp/5n2/3pP3/8/8/PPPP1PPP/RNBQKBNR w KQkq d6 0 3", "rnbqkb1r/ppp1pppp/5n2/3pP3/8/8/PPPP1PPP/RNBQKBNR w KQkq - 0 3"),
+    # castling state: the cached castling move is not legal for the twin without the right
+    ("4k3/8/8/8/8/8/7p/R3K3 w Q - 0 1", "4k3/8/8/8/8/8/7p/R3K3 w - - 0 1"),
+    ("r3k3/7P/8/8/8/8/8/4K3 b q - 0 1", "r3k3/7P/8/8/8/8/8/4K3 b - - 0 1"),
+    ("4k2r/8/8/8/8/8/8/R3K2R w KQk - 0 1", "4k2r/8/8/8/8/8/8/R3K2R w Qk - 0 1"),
+]
 
 
 def run_history(chk):
@@ -813,6 +833,16 @@ def mate_candidates(tier, seed):
     return sorted(set(out))
 
 
+# mates the random generator does not produce: the key of the mate in two is an under-promotion (the queen stalemates),
+# a pawn move, a knight move, a discovered or double check; mates in one by promotion, en passant and castling
+FIXED_MATES = [
+    "8/5P1k/5K2/8/8/8/8/8 w - - 0 1", "8/k1P5/2K5/8/8/8/8/8 w - - 0 1", "8/8/8/8/8/5k2/5p1K/8 b - - 0 1", "8/8/8/8/8/2k5/K1p5/8 b - - 0 1",
+    "7k/5K2/6P1/6P1/8/8/8/8 w - - 0 1", "6k1/5ppp/8/8/8/8/8/R3K3 w Q - 0 1", "5k2/4P1P1/5K2/8/8/8/8/8 w - - 0 1",
+    "4k3/8/4K3/8/8/8/8/R6R w - - 0 1", "k7/2P5/1K6/8/8/8/8/8 w - - 0 1", "7k/5P2/6K1/8/8/8/8/8 w - - 0 1",
+    "8/8/8/8/8/7k/5Kpp/6R1 w - - 0 1", "5rk1/5ppp/8/8/8/8/1Q6/K6R w - - 0 1",
+]
+
+
 # unique-key mates in two (rook or queen endings; the keys are recomputed by the solver on every run)
 HISTORY_ENDINGS = [
     "8/8/8/8/2R5/k7/3K4/8 w - - 0 1", "k7/8/3K4/5Q2/8/8/8/8 w - - 0 1", "k7/8/8/K7/8/8/6R1/8 w - - 0 1", "8/8/8/1R6/8/1K6/8/2k5 w - - 0 1",
@@ -907,6 +937,11 @@ def history_mates(chk, key):
     return good
 
 
+TABLE_MATE_WITNESSES = [
+    "8/3R4/8/k2K4/8/8/8/2Q5 w - - 0 1", "B7/5R1K/8/5Q2/7k/8/8/8 w - - 0 1", "8/8/3R1R2/5Q2/3K3k/8/8/8 w - - 0 1", "8/8/1Q6/8/7k/8/Q7/R1K5 w - - 0 1",
+    "8/5R2/1K6/5R2/5Q2/7k/8/8 w - - 0 1", "8/3k4/8/KR6/4QR2/8/8/8 w - - 0 1", "1B6/3R4/7K/8/3Q4/8/8/1k6 w - - 0 1", "6k1/8/1R6/8/5K2/4RQ2/8/8 w - - 0 1",
+    "7k/8/Q7/8/8/4K3/8/2Q2R2 w - - 0 1", "8/3R4/8/Q5B1/8/8/8/1k5K w - - 0 1",
+]
 STALEMATES = ["7k/5Q2/6K1/8/8/8/8/8 b - - 0 1", "k7/2Q5/1K6/8/8/8/8/8 b - - 0 1", "5k2/5P2/5K2/8/8/8/8/8 b - - 0 1", "8/8/8/8/8/5k2/5p2/5K2 w - - 0 1",
               "K7/8/1q6/8/8/8/8/5k2 w - - 0 1", "7K/8/5n1k/8/8/8/8/6r1 w - - 0 1"]
 SESSION_MATES = [
@@ -921,7 +956,7 @@ def check_C10(chk):
     if not status.get("harness_release"):
         return finish(chk, broken, [], [], {})
     key = "mate-%s-%d" % (chk.tier, chk.seed)
-    cands = mate_candidates(chk.tier, chk.seed)
+    cands = FIXED_MATES + [f for f in mate_candidates(chk.tier, chk.seed) if f not in FIXED_MATES]
     # the independent solver: sane positions with a mate in one / forced mate in two; dead roots
     b1 = [["# m%d" % i, "spec " + f, "specmate 1 | " + f] for i, f in enumerate(cands)]
     r1 = cached_run("mate-spec1", SPECDRIVER, b1, key)
@@ -972,6 +1007,21 @@ def check_C10(chk):
         gid = "s%d" % i
         blocks.append(["# " + gid, "cleartable", "new " + f, "search 3 -1 0", "search 0 -1 0"])
         expect[gid] = ("dead", f + " (stalemate)", [], 3)
+    # (e) mates in two in which a position of ply 2 returns at ply 4: a table that holds mate scores counted from the root of the
+    # search hands the ply-2 score to the ply-4 node (known finding C10-K2 while the engine is not repaired; a regression test after)
+    bw = [["# w%d" % i, "specmate 2 | " + f] for i, f in enumerate(TABLE_MATE_WITNESSES)]
+    rw = cached_run("mate-spec-witness", SPECDRIVER, bw, "mate-witness", timeout=900)
+    nwit = 0
+    for i, f in enumerate(TABLE_MATE_WITNESSES):
+        ls = rw.get("w%d" % i, [])
+        kv = parse_kv(ls[0])[1] if ls else {}
+        if kv.get("forced") != "1":
+            continue
+        nwit += 1
+        for d in (5, 7):
+            gid = "w%d_%d" % (i, d)
+            blocks.append(["# " + gid, "cleartable", "new " + f, "search %d -1 0" % d])
+            expect[gid] = ("forced mate in two", f, kv["keep"].split(","), d, "mate_distance_through_table")
     # (d) the same positions at the end of a game record on which the root's repetition filter fires
     hist = history_mates(chk, key)
     hstats = {"filtered_move_is_key": 0, "filtered_move_is_other": 0, "mate_in_one_records": 0}
@@ -1000,7 +1050,7 @@ def check_C10(chk):
     model = cached_run("mate-model", DRIVER, blocks, key, timeout=3000) if status.get("driver") else {}
     dis = diff_runs(blocks, impl, model) if status.get("driver") else []
     stats = {"candidates": len(cands), "sane": len(sane), "mate_in_one": len(mate1), "mate_in_two": len(mate2), "dead_roots": len(dead) + len(mate1) + len(STALEMATES),
-             "stopped_by_itself_on_mate": 0, "game_records_with_repetition_filter": hstats}
+             "stopped_by_itself_on_mate": 0, "game_records_with_repetition_filter": hstats, "table_transposition_mates": nwit}
     nfail = 0
     for blk in blocks:
         gid = blk[0][2:]
